@@ -165,6 +165,57 @@ def rules(ctx, db):
                "a Sleep is immediately ready only when no timer was created (deadline already passed)", f)
 
 
+def rule_interval(ctx, db):
+    R = ctx.rule
+    R("R5", "ORD+same-value", "Interval::tick: the first tick sleeps until `start` and is recorded as delivered only after that "
+      "sleep completed (a cancelled first tick is not skipped); later ticks sleep until an instant computed from now, start "
+      "and period, and return that same instant")
+    if not any(n.startswith("compio_runtime::time::") for n in db.adts):
+        return
+    tk = [f for f in db.fns.values() if f.kind == "coroutine" and db.root_fn(f).name == "compio_runtime::time::future::Interval::tick"]
+    if not tk:
+        ctx.missing("R5", "Interval::tick")
+    for f in tk:
+        su = calls(f, r"compio_runtime::time::sleep_until$")
+        polls = [bb for bb, t in calls(f, r"core::future::future::Future::poll$") if t.get("ga") and "Sleep" in t["ga"][0]]
+        # writes to the flag: assignments to the field and any mutable borrow of it
+        wr = []
+        for bi, si, st in f.stmts():
+            a = st.get("a")
+            if a and any(isinstance(e, list) and e[0] == "f" and e[2] == "first_ticked" for e in a["p"]):
+                wr.append(bi)
+            r = st.get("r", {})
+            if r.get("k") in ("ref", "rawptr") and r.get("x") in ("mut", "Mut") and "pl" in r and \
+                    any(isinstance(e, list) and e[0] == "f" and e[2] == "first_ticked" for e in r["pl"]["p"]):
+                wr.append(bi)
+        first = [(bb, t) for bb, t in su if any(any(isinstance(e, list) and e[0] == "f" and e[2] == "start" for e in pl["p"])
+                                                 for pl in data_deps(f, op_place(t["args"][0])["l"])[2]) and
+                 not any(call_matches(ct, r"Instant::now$") for _, ct in data_deps(f, op_place(t["args"][0])["l"])[1])]
+        ctx.ob("R5", "first-tick-sleeps-until-start", len(first) == 1, "the first tick awaits sleep_until(self.start)", f)
+        ok = bool(wr) and bool(first)
+        if ok:
+            fb = first[0][0]
+            # the Sleep poll that belongs to the first sleep: the polls reachable from it before the other sleep_until
+            others = {bb for bb, _ in su if bb != fb}
+            mine = [pb for pb in polls if pb in f.cfg.reach_set([fb], avoid=others)]
+            ok = bool(mine) and all(any(f.cfg.dominates(pb, w) for pb in mine) for w in wr)
+        ctx.ob("R5", "first-tick-recorded-after-its-sleep", ok,
+               "every write to (or mutable borrow of) `first_ticked` is dominated by the completed poll of the first sleep: "
+               "a first tick that is dropped while pending is started again, not skipped", f)
+        later = [(bb, t) for bb, t in su if (bb, t) not in first]
+        ok2 = False
+        for bb, t in later:
+            locs, cr, places = data_deps(f, op_place(t["args"][0])["l"])
+            flds = {e[2] for pl in places for e in pl["p"] if isinstance(e, list) and e[0] == "f"}
+            if any(call_matches(ct, r"Instant::now$") for _, ct in cr) and {"start", "period"} <= flds:
+                # the value returned is the slept-until instant
+                rl, rc, rp = data_deps(f, 0)
+                if op_place(t["args"][0])["l"] in rl or (locs & rl):
+                    ok2 = True
+        ctx.ob("R5", "later-ticks-on-the-grid", ok2,
+               "a later tick sleeps until an instant derived from now, start and period and returns that instant", f)
+
+
 def _none_guard(f, b):
     for sbi, blk in enumerate(f.blocks):
         t = blk["t"]
@@ -178,5 +229,10 @@ def _none_guard(f, b):
     return False
 
 
+def rules_all(ctx, db):
+    rules(ctx, db)
+    rule_interval(ctx, db)
+
+
 def check(tier):
-    return engine.run("C09", tier, rules, NOT_DECIDED, [])
+    return engine.run("C09", tier, rules_all, NOT_DECIDED, [])
